@@ -730,16 +730,18 @@ impl Formatter<'_> {
                         self.newline(depth);
                     }
                     for (j, word) in line.iter().enumerate() {
-                        self.format_word(word, depth);
-                        if word_is_multiline(&word.value)
+                        let closes_on_own_line = word_is_multiline(&word.value)
                             && j < line.len() - 1
                             && !line.first().is_some_and(|first| {
                                 matches!(
                                     first.value,
                                     Word::MultilineString(_) | Word::MultilineFormatString(_)
                                 )
-                            })
-                        {
+                            });
+                        let broken = closes_on_own_line.then(|| with_break_before_close(word));
+                        let broken = broken.as_ref().and_then(Option::as_ref);
+                        self.format_word(broken.unwrap_or(word), depth);
+                        if closes_on_own_line {
                             for (end, empty) in [(')', "()"), (']', "[]"), ('}', "{}")] {
                                 if self.output.ends_with(end) && !self.output.ends_with(empty) {
                                     self.output.pop();
@@ -1035,8 +1037,10 @@ impl Formatter<'_> {
     fn format_words(&mut self, words: &[Sp<Word>], trim_end: bool, depth: usize) {
         let words = trim_spaces(words, trim_end);
         for (i, word) in words.iter().enumerate() {
-            self.format_word(word, depth);
-            if word_is_multiline(&word.value) && i < words.len() - 1 {
+            let closes_on_own_line = word_is_multiline(&word.value) && i < words.len() - 1;
+            let broken = closes_on_own_line.then(|| with_break_before_close(word));
+            self.format_word(broken.as_ref().and_then(Option::as_ref).unwrap_or(word), depth);
+            if closes_on_own_line {
                 for (end, empty) in [(')', "()"), (']', "[]"), ('}', "{}")] {
                     if self.output.ends_with(end) && !self.output.ends_with(empty) {
                         self.output.pop();
@@ -1768,6 +1772,39 @@ impl Formatter<'_> {
             Some(true) => '}',
         });
     }
+}
+
+/// Get a word whose last closing bracket will be moved to its own line
+/// with the line break before that bracket that it has when formatted again,
+/// so that the contents of the bracket are laid out for it
+fn with_break_before_close(word: &Sp<Word>) -> Option<Sp<Word>> {
+    fn add_break(word: &mut Word) -> bool {
+        let lines = match word {
+            Word::Func(func) => &mut func.lines,
+            Word::Array(arr) => &mut arr.lines,
+            Word::Pack(pack) => match pack.branches.last_mut() {
+                Some(branch) => &mut branch.value.lines,
+                None => return false,
+            },
+            Word::Modified(m) => {
+                let last = (m.operands.iter_mut()).rfind(|w| !matches!(w.value, Word::Spaces));
+                return last.is_some_and(|last| add_break(&mut last.value));
+            }
+            Word::Subscripted(sub) if matches!(sub.word.value, Word::Modified(_)) => {
+                return add_break(&mut sub.word.value);
+            }
+            _ => return false,
+        };
+        // A line break after the opening bracket is laid out in its own way
+        let add = lines.last().is_some_and(|last| !last.is_empty_line())
+            && lines.first().is_some_and(|first| !first.is_empty_line());
+        if add {
+            lines.push(Item::Words(Vec::new()));
+        }
+        add
+    }
+    let mut word = word.clone();
+    add_break(&mut word.value).then_some(word)
 }
 
 fn words_are_multiline(words: &[Sp<Word>]) -> bool {
